@@ -38,10 +38,13 @@ class SyncExecutor(CanCustomizeBind, Executor):
             future = Future()
             track_future(future, type="sync", executor=self._name)
 
-            try:
-                result = fn(*args, **kwargs)
-                future.set_result(result)
-            except Exception:
-                copy_exception(future)
+        # The callable runs outside the shutdown gate: it may submit to an executor
+        # layered on top of this one, whose submit() holds its own gate while
+        # calling down into ours.
+        try:
+            result = fn(*args, **kwargs)
+            future.set_result(result)
+        except Exception:
+            copy_exception(future)
 
-            return future
+        return future
